@@ -35,6 +35,44 @@ plan=[
   IsVariableUsageAllowed except for a variable whose default is the literal `null` (`judge_eq`).
 -/
 '''),
+ ('ValidateKnownArgs',['K1','K2','K3'],'AGV.Lemmas.ValidateGraphUsages',
+  '''/-
+  C09 — KnownArgumentNames = §5.4.1 Argument Names.  `Machine.run_events_on`: the fold of a stateful
+  rule over the walk when it is state-independent only on selections satisfying a predicate.  The
+  rule keeps `current_args` across a field it does not know, so the equivalence is stated where every
+  field carrying arguments is a field of its parent type (`ArgsOnKnownFields`) and `__typename`
+  carries none.
+-/
+'''),
+ ('ValidateValues',['D1','A1','A2','A3','F1'],'AGV.Lemmas.ValidateKnownArgs',
+  '''/-
+  C09 — the two value rules against §5.6 Values Of Correct Type: DefaultValuesOfCorrectType = its
+  default-value half (relative to `DefaultsAgree`), ArgumentsOfCorrectType = its argument half for
+  documents whose arguments are literals without variables (`DocVarFree`, relative to
+  `ArgLiteralsAgree`: `is_valid_input_value` and §5.6.1 agree on the literals that occur).
+-/
+'''),
+ ('ValidateOverlap',['O1','O2','O3','O4','O5','O6'],'AGV.Lemmas.ValidateValues',
+  '''/-
+  C09 — OverlappingFieldsCanBeMerged as implemented is SOUND for §5.3.2 Field Selection Merging on
+  documents all of whose inline fragments carry a type condition (`overlap_sound`):
+  `FindConflicts::find` files, one after the other, the fields the reference validator's
+  `fieldsInSet` collects (`findConflicts_eq`, `flat_rel`: same recursion, same fuel, same visited
+  set); a report means two collected fields with the same `on_type` and response key that differ in
+  name or arguments (`errs_conf`), which the reference validator refuses to merge (`conf_spec`).
+-/
+'''),
+ ('ValidateLiterals',['L1','L2','L3','L4','L5','L6'],'AGV.Lemmas.ValidateOverlap',
+  '''/-
+  C09 — `is_valid_input_value` (all value toggles off) against §5.6.1 Values Of Correct Type on
+  constants: `valid_eq_lit` — they agree for every type and every constant whose object literals do
+  not repeat a key, in registries where the five built-in scalar names are scalars and every
+  input-object type has its definition with unique field names (`LitSchema`).  The implementation
+  walks the declared fields and looks each up among the entries, the specification walks the
+  entries and looks each up among the declared fields (`object_agree`).  Consequences:
+  `defaultsAgree_of`, `argLiteralsAgree_of`.
+-/
+'''),
 ]
 extra = sys.argv[1:]  # further plan entries appended by later scripts
 for name,parts,imp,hdr in plan:
